@@ -30,23 +30,27 @@ pub open spec fn cdata_end_at(s: Seq<char>, i: int) -> bool {
     0 <= i && i + 2 < s.len() && s[i] == ']' && s[i + 1] == ']' && s[i + 2] == '>'
 }
 /// what an XML parser reads back from an entity-encoded text (only the five predefined entities are produced by `esc`)
+pub open spec fn E_AMP() -> Seq<char> { seq!['&', 'a', 'm', 'p', ';'] }
+pub open spec fn E_APOS() -> Seq<char> { seq!['&', 'a', 'p', 'o', 's', ';'] }
+pub open spec fn E_QUOT() -> Seq<char> { seq!['&', 'q', 'u', 'o', 't', ';'] }
+pub open spec fn E_LT() -> Seq<char> { seq!['&', 'l', 't', ';'] }
+pub open spec fn E_GT() -> Seq<char> { seq!['&', 'g', 't', ';'] }
 pub open spec fn unesc(s: Seq<char>) -> Seq<char>
     decreases s.len()
 {
     if s.len() == 0 { seq![] }
     else if s.first() != '&' { seq![s.first()] + unesc(s.drop_first()) }
-    else if "&amp;"@.is_prefix_of(s) { seq!['&'] + unesc(s.skip(5)) }
-    else if "&apos;"@.is_prefix_of(s) { seq!['\''] + unesc(s.skip(6)) }
-    else if "&quot;"@.is_prefix_of(s) { seq!['"'] + unesc(s.skip(6)) }
-    else if "&lt;"@.is_prefix_of(s) { seq!['<'] + unesc(s.skip(4)) }
-    else if "&gt;"@.is_prefix_of(s) { seq!['>'] + unesc(s.skip(4)) }
+    else if E_AMP().is_prefix_of(s) { seq!['&'] + unesc(s.skip(5)) }
+    else if E_APOS().is_prefix_of(s) { seq!['\''] + unesc(s.skip(6)) }
+    else if E_QUOT().is_prefix_of(s) { seq!['"'] + unesc(s.skip(6)) }
+    else if E_LT().is_prefix_of(s) { seq!['<'] + unesc(s.skip(4)) }
+    else if E_GT().is_prefix_of(s) { seq!['>'] + unesc(s.skip(4)) }
     else { seq![s.first()] + unesc(s.drop_first()) }
 }
 
 proof fn lits_entities()
     ensures
-        "&amp;"@ == seq!['&', 'a', 'm', 'p', ';'], "&apos;"@ == seq!['&', 'a', 'p', 'o', 's', ';'],
-        "&quot;"@ == seq!['&', 'q', 'u', 'o', 't', ';'], "&lt;"@ == seq!['&', 'l', 't', ';'], "&gt;"@ == seq!['&', 'g', 't', ';'],
+        "&amp;"@ == E_AMP(), "&apos;"@ == E_APOS(), "&quot;"@ == E_QUOT(), "&lt;"@ == E_LT(), "&gt;"@ == E_GT(),
 {
     reveal_strlit("&amp;"); reveal_strlit("&apos;"); reveal_strlit("&quot;"); reveal_strlit("&lt;"); reveal_strlit("&gt;");
     assert("&amp;"@ =~= seq!['&', 'a', 'm', 'p', ';']);
@@ -280,6 +284,21 @@ impl Trace {
         &&& forall|i: int| 0 <= i < self.batches.len() ==> 1 <= #[trigger] self.attempts[i] <= 5
         &&& forall|i: int| 0 <= i < self.batches.len() ==> batch_ok(#[trigger] self.batches[i])
     }
+}
+
+impl Trace {
+    pub open spec fn same_uploads(self, o: Trace) -> bool { self.posts == o.posts && self.batches == o.batches && self.attempts == o.attempts }
+}
+pub broadcast proof fn lemma_repeat_len(x: Seq<char>, k: int)
+    ensures #[trigger] repeat(x, k).len() == (if k <= 0 { 0 } else { k })
+    decreases k
+{
+    if k > 0 { lemma_repeat_len(x, k - 1); }
+}
+pub broadcast proof fn lemma_concat_push<A>(a: Seq<A>, b: Seq<A>, x: A)
+    ensures #[trigger] (a + b).push(x) == a + b.push(x)
+{
+    assert((a + b).push(x) =~= a + b.push(x));
 }
 
 // ---- "each event ... in at most one batch": counting occurrences -----------------------------------------
